@@ -174,7 +174,14 @@ def run(module, cfg=None, *, cfg_text=None, workers=None, dump=False, simulate=N
         # parse / semantic / evaluation error: machinery failure
         if own and not keep:
             shutil.rmtree(rundir, ignore_errors=True)
-        raise MachineryError("TLC failed rc=%s on %s\n%s" % (res.rc, module, out[-3000:]))
+        i = out.find("Error:")
+        head = out[i:i + 2500] if i >= 0 else out[-2500:]
+        try:
+            with open(os.path.join(VERIF, ".run", "last_tlc_failure_%s.log" % module), "w") as fh:
+                fh.write(out)
+        except OSError:
+            pass
+        raise MachineryError("TLC failed rc=%s on %s\n%s" % (res.rc, module, head))
     if dump:
         res.dump_path = os.path.join(rundir, "states.dump")
     if simdir:
